@@ -54,6 +54,8 @@ type genConfig struct {
 	// HostState uses host.bump()/host.state: Go-side module state shared by every
 	// program that imports the module (only for engines that reset it between runs).
 	HostState bool
+	// Params declares `param (PA, PB)`: an int and a string passed by the host to Run.
+	Params bool
 	// ShadowBuiltins lets top-level statements rebind builtin names (len, int, string, …) that later statements call.
 	ShadowBuiltins bool
 	// GlobalVar declares the global GV (assigned and read by the script).
@@ -377,6 +379,11 @@ func (g *gen) callOf(f gvar, d int) string {
 			// repeated invocation on one handle
 			return "\x04" + fmt.Sprint(1+g.t.Draw(3)) + "\x02" + name + "\x02" + strings.Join(args, ", ") + "\x03"
 		}
+		if f.arity == 1 && !f.variadic && g.t.Bool(1, 3) {
+			// a batch on one handle that tolerates per-item errors
+			items := []string{args[0], g.expr(tInt, 1), g.expr(tAny, 1)}
+			return "\x05" + name + "\x02" + strings.Join(items, ", ") + "\x03"
+		}
 		return "\x01" + name + "\x02" + strings.Join(args, ", ") + "\x03"
 	}
 	// calling through the host (Invoker) instead of directly
@@ -653,7 +660,11 @@ func (g *gen) stmt(lvl int) string {
 func (g *gen) shareStmt(lvl int) string {
 	in := ind(lvl)
 	e := g.fresh("err")
-	switch g.t.Draw(5) {
+	switch g.t.Draw(6) {
+	case 5: // a runtime error built from a process-wide sentinel (ZeroDivisionError): deriving a new error from it must not touch the sentinel
+		e2 := g.fresh("err")
+		return in + "try {\n" + in + "\tlog(7 / (len(WID) - len(WID)))\n" + in + "} catch " + e + " {\n" + in + "\tlog(" + e + ".New(WID + \"-derived\").Message, " + e + ".Message)\n" + in + "}\n" +
+			in + "try {\n" + in + "\tlog(9 / (len(WID) - len(WID)))\n" + in + "} catch " + e2 + " {\n" + in + "\tlog(" + e2 + ".Name, " + e2 + ".Message)\n" + in + "}\n"
 	case 0: // error thrown inside a fixed module file, position resolved without fmt
 		return in + "try {\n" + in + "\timport(\"modB\").boom(" + g.strLit() + ")\n" + in + "} catch " + e + " {\n" + in + "\tlog(" + e + ".Message, trace(" + e + "))\n" + in + "}\n"
 	case 1: // error thrown in main, resolved through fmt as well
@@ -697,6 +708,13 @@ func (g *gen) importStmt(lvl int) string {
 		if g.t.Bool(1, 2) {
 			s += ind(lvl) + name + ".arr[" + fmt.Sprint(g.t.Draw(3)) + "] = " + g.expr(tInt, 1) + "\n"
 			s += ind(lvl) + "log(" + name + ".arr, " + name + ".map, " + name + ".nzero, " + name + ".str)\n"
+		}
+		if g.t.Bool(1, 3) {
+			s += ind(lvl) + "log(" + name + "[\"\"], " + name + ".errA, " + name + ".errB, " + name + ".rterr, " + name + ".bytes, " + name + ".char, " + name + ".uint)\n"
+		}
+		if !g.cfg.NoTrace && g.t.Bool(1, 3) {
+			e := g.fresh("err")
+			s += ind(lvl) + "try {\n" + ind(lvl+1) + "import(\"modC\")\n" + ind(lvl) + "} catch " + e + " {\n" + ind(lvl+1) + "log(" + e + ".Message, trace(" + e + "))\n" + ind(lvl) + "}\n"
 		}
 		return s
 	case k == 2:
@@ -772,6 +790,10 @@ func (g *gen) program() (string, []srcModule) {
 	if g.cfg.GlobalVar {
 		g.declare(gvar{name: "GV", t: tInt})
 	}
+	if g.cfg.Params {
+		g.declare(gvar{name: "PA", t: tInt})
+		g.declare(gvar{name: "PB", t: tStr})
+	}
 	if g.cfg.Modules {
 		for i, n := 0, g.t.Draw(3); i < n; i++ {
 			g.genModule(i)
@@ -802,7 +824,9 @@ func (g *gen) program() (string, []srcModule) {
 		}
 		if g.cfg.ShadowBuiltins && g.t.Bool(1, 6) {
 			// a user definition takes over a builtin name for the rest of the script
-			name := []string{"len", "int", "string", "typeName", "isError", "float", "append"}[g.t.Draw(7)]
+			// (only builtins the generator never calls by itself: using a builtin and declaring its name later in the
+			// same compile unit is a compile error that depends on whether the optimizer folded the use away)
+			name := []string{"contains", "bool", "uint", "chars", "isInt", "isString", "isMap", "isUndefined"}[g.t.Draw(8)]
 			body := []string{"return 42", "return \"shadowed\"", "return [x]", "return x"}[g.t.Draw(4)]
 			if g.t.Bool(1, 2) {
 				g.addTop(name + " := func(x, ...y) { " + body + " }\n")
@@ -820,7 +844,15 @@ func (g *gen) program() (string, []srcModule) {
 			"fy := \x01fz\x02" + g.expr(tInt, 1) + ", 2\x03\n" +
 			"log(\x01fy\x023\x03, \x042\x02fy\x02" + g.expr(tInt, 1) + "\x03)\n")
 	}
+	if g.cfg.CallMark && g.t.Bool(1, 3) {
+		// a stateful module whose first import of the run may happen inside a function invoked from Go
+		g.addTop("fzm := func() { zm := import(\"modA\"); return zm.inc() }\n" +
+			"log(\x01fzm\x02\x03, \x01fzm\x02\x03)\nlog(import(\"modA\").get())\n")
+	}
 	g.addTop(g.probe())
+	if g.cfg.Params {
+		return sim.Prelude + "param (PA, PB)\n" + strings.Join(g.Top, ""), g.mods
+	}
 	return sim.Prelude + strings.Join(g.Top, ""), g.mods
 }
 
@@ -842,14 +874,14 @@ func renderCalls(src string, viaHost bool) string {
 	var sb strings.Builder
 	for i := 0; i < len(src); i++ {
 		c := src[i]
-		if c != 1 && c != 4 {
+		if c != 1 && c != 4 && c != 5 {
 			sb.WriteByte(c)
 			continue
 		}
 		// find the matching end marker (placeholders nest inside argument lists)
 		depth, j := 0, i+1
 		for ; j < len(src); j++ {
-			if src[j] == 1 || src[j] == 4 {
+			if src[j] == 1 || src[j] == 4 || src[j] == 5 {
 				depth++
 			} else if src[j] == 3 {
 				if depth == 0 {
@@ -864,7 +896,7 @@ func renderCalls(src string, viaHost bool) string {
 		d, last := 0, 0
 		for k := 0; k < len(inner); k++ {
 			switch inner[k] {
-			case 1, 4:
+			case 1, 4, 5:
 				d++
 			case 3:
 				d--
@@ -879,7 +911,14 @@ func renderCalls(src string, viaHost bool) string {
 		for k := range parts {
 			parts[k] = renderCalls(parts[k], viaHost)
 		}
-		if c == 1 {
+		if c == 5 {
+			name, items := parts[0], parts[1]
+			if viaHost {
+				sb.WriteString("calleach(" + name + ", " + items + ")")
+			} else {
+				sb.WriteString("(func(...cea) { cer := []; for cei, cev in cea { try { cer = append(cer, " + name + "(cev)) } catch { cer = append(cer, \"err\") } }; return cer })(" + items + ")")
+			}
+		} else if c == 1 {
 			name, args := parts[0], parts[1]
 			if viaHost {
 				if args == "" {
